@@ -504,7 +504,7 @@ fn op_shape(before: &str, model: &Content, op: &Op) -> String {
     }
 }
 
-pub const POOL: [&str; 5] = ["New", "X-A", "Depends", "b", "Source"];
+pub const POOL: [&str; 7] = ["New", "X-A", "Depends", "b", "Source", "depends", "B"];
 
 pub fn gen_value(r: &mut Rng, uniq: &mut u32) -> String {
     let o = GOpts::default();
